@@ -19,7 +19,7 @@ import ast
 
 from ..absint import Obj, Opaque
 from ..core import AnalysisError, Ctx, Finding
-from ..docsim import MiniFrame
+from ..docsim import MiniFrame, Tok
 from ..roundtrip import CONFIGS, RT, veq
 from . import _rt_common as rc
 
@@ -81,7 +81,10 @@ def r_hash(ctx: Ctx, rt: RT):
 
     def hpo(I, a, k, n):
         seen["hpo"] = (a[0], dict(k))
+        seen.setdefault("hpo_calls", []).append(a[0])
         return Obj(kind="HashSeries", attrs={"frame": a[0], "kw": dict(k)})
+    for nm in ("is_numeric_dtype", "is_float_dtype", "is_integer_dtype"):
+        I.ext[f"pandas.api.types.{nm}"] = lambda I, a, k, n: getattr(a[0], "name", None) != "note"      # the harness' only text column
     I.ext["pandas.util.hash_pandas_object"] = hpo
     I.libmeth[("HashSeries", "sum")] = lambda I, v, a, k, n: Opaque(f"hashsum({v.attrs['frame']!r},{sorted(v.attrs['kw'].items())})")
 
@@ -138,6 +141,15 @@ def r_hash(ctx: Ctx, rt: RT):
                                                f"the hashed document has keys {sorted(map(str, val))}, to_dict() has {sorted(map(str, d))}"),
                        nontrivial_key=("hash", kind, "doc"))
                 if kind == "point":
+                    calls = seen.get("hpo_calls", [])
+                    whole = len(calls) == 1 and isinstance(calls[0], MiniFrame) and set(calls[0].cols) == set(iso.attrs["data_raw"].cols)
+                    ctx.ob(whole, Finding("C05.ID-hash", hf.where, "hash|point|not-row-wise",
+                                          f"the data enter the identifier through {len(calls)} hash_pandas_object call(s) on "
+                                          f"{[type(c).__name__ + ':' + str(getattr(c, 'name', list(getattr(c, 'cols', {})))) for c in calls][:4]}: only one row-wise "
+                                          "hash of the whole table sees which values sit together in a row (per-column digests are equal for "
+                                          "tables whose columns are permuted against each other)"), nontrivial_key=("hash", "point", "rowwise"))
+                    if not whole:
+                        continue
                     fr, kw = seen.get("hpo", (None, {}))
                     tags = getattr(fr, "tags", ())
                     ok = isinstance(fr, MiniFrame) and ("round", "8") in tags and kw.get("index") is False and \
@@ -158,6 +170,61 @@ def r_hash(ctx: Ctx, rt: RT):
     finally:
         if saved is not None:
             I.overrides[hf.qualname] = saved
+
+
+def r_literal(ctx: Ctx, rt: RT):
+    ctx.rule("ID-literal: integer-typed metadata values and model parameters reach the digest spelled as floats (3 and 3.0 are the same "
+             "content): isotherm_to_hash interpreted with python-int tokens in the metadata and the model dictionary")
+    I = rt.I
+    hf = rt.model.func("pygaps.utilities.hashgen.isotherm_to_hash")
+    seen = {}
+
+    def md5(I, a, k, n):
+        if a:
+            seen["doc"] = a[0]
+        return Obj(kind="Hasher", attrs={"doc": a[0] if a else None, "updates": 1 if a else 0})
+    for algo in ("md5", "sha1", "sha256", "blake2b"):
+        I.ext[f"hashlib.{algo}"] = md5
+
+    def ints_in(v, path=""):
+        if isinstance(v, Obj) and v.kind == "PyInt":
+            yield f"{path}={v.label}"
+        elif isinstance(v, Obj) and v.kind == "JsonDoc":
+            yield from ints_in(v.attrs["value"], path)
+        elif isinstance(v, dict):
+            for k_, x in v.items():
+                yield from ints_in(x, f"{path}/{k_}")
+        elif isinstance(v, (list, tuple)):
+            for i, x in enumerate(v):
+                yield from ints_in(x, f"{path}[{i}]")
+    saved = I.overrides.pop(hf.qualname, None)
+    n = 0
+    try:
+        for kind in ("base", "model"):
+            def thunk(I, kind=kind):
+                seen.clear()
+                iso = rt.mk_iso(kind, "abs-molar-K", props={"user": Tok("t_user"), "count": Obj(kind="PyInt", label="int:count"), "flag": True})
+                if kind == "model":
+                    m = iso.attrs["model"]
+                    first = next(iter(m.attrs["params"]))
+                    m.attrs["params"][first] = Obj(kind="PyInt", label="int:param")
+                I.call_func(hf, [iso], {}, None)
+                return seen.get("doc")
+            for oc, _ in rt.explore(thunk):
+                if oc.kind != "ok":
+                    ctx.ob(False, Finding("C05.ID-literal", hf.where, f"literal|{kind}|raises:{oc.exc.name}", f"isotherm_to_hash raises {oc.exc} for integer content"))
+                    continue
+                n += 1
+                left = list(ints_in(oc.value))
+                ctx.ob(oc.value is not None and not left,
+                       Finding("C05.ID-literal", hf.where, f"literal|{kind}|{'+'.join(sorted(x.split('=')[1] for x in left)) or 'no-digest'}",
+                               f"integer-typed content reaches the digest as an integer ({left}): json spells 3 and 3.0 differently, so the same "
+                               "content given as int or as float has two identifiers (and an isotherm differs from its Excel / database re-import, "
+                               "which return floats)"), nontrivial_key=("literal", kind))
+    finally:
+        if saved is not None:
+            I.overrides[hf.qualname] = saved
+    ctx.floor("ID-literal digests inspected", n, 2)
 
 
 def r_eq(ctx: Ctx, rt: RT):
@@ -194,6 +261,7 @@ def run(ctx: Ctx):
     rc.r_column_order(ctx, rt, "C05")
     r_attr(ctx, rt)
     r_hash(ctx, rt)
+    r_literal(ctx, rt)
     r_eq(ctx, rt)
 
 
